@@ -21,18 +21,20 @@ box and contour end points, the same points — coordinates and on-curve flags, 
 draws from) answers the same on both, provided the original's flag array is not longer than its point count (the fast
 reader looks at no more than `num_points` flag bytes; a record with more flag bytes than points — only possible with
 repeat counts of zero — is mis-decoded by it before and after subsetting, see reports/C17.md).  Padding after the
-coordinate data is the only thing removed; OVERLAP_SIMPLE on the first flag does not change any decoded value. -/
-theorem subset_simple_glyph_decodes_equal (flags : Nat) (gmap : Nat → Option Nat) (d out : Bytes)
+coordinate data is the only thing removed; OVERLAP_SIMPLE on the first flag does not change any decoded value.  `pad` =
+whatever follows the rewritten record inside its loca range (klippa's own alignment byte in the short loca format): it
+is never read. -/
+theorem subset_simple_glyph_decodes_equal (flags : Nat) (gmap : Nat → Option Nat) (d out pad : Bytes)
     (hb : ∀ b ∈ d, b < 256) (hs : u16At d 0 < 32768)
     (h : subsetGlyphBytes flags gmap d = .bytes out) (hne : out ≠ []) :
-    ∃ v v', Glyf.readSimple d = some v ∧ Glyf.readSimple out = some v' ∧
+    ∃ v v', Glyf.readSimple d = some v ∧ Glyf.readSimple (out ++ pad) = some v' ∧
       v'.nContours = v.nContours ∧ v'.xMin = v.xMin ∧ v'.yMin = v.yMin ∧ v'.xMax = v.xMax ∧ v'.yMax = v.yMax ∧
       v'.endPts = v.endPts ∧
       v'.instructions = (if hasFlag flags F_NO_HINTING then [] else v.instructions) ∧
       v'.points = v.points ∧
       ((∀ fl xl yl, Glyf.resolveCoordsLen v.glyphData 0 v.numPoints 0 0 = some (fl, xl, yl) → fl ≤ v.numPoints) →
         v'.readPointsFast = v.readPointsFast) := by
-  obtain ⟨v, v', h1, h2, e1, e2, e3, e4, e5, e6, e7, e8, e9, _⟩ := simple_decodes_equal flags gmap d out hb hs h hne
+  obtain ⟨v, v', h1, h2, e1, e2, e3, e4, e5, e6, e7, e8, e9, _⟩ := simple_decodes_equal flags gmap d out pad hb hs h hne
   exact ⟨v, v', h1, h2, e1, e2, e3, e4, e5, e6, e7, e8, e9⟩
 
 /-- **subset_composite_glyph_decodes_equal.**  For every composite record, flag combination and glyph map: if
